@@ -30,6 +30,8 @@ inductive WOp where
   | construct (seed : Nat) (usesDefault : Bool)
   | fit (i : Nat)
   | other (i : Nat)           -- any other call on bandit `i` (partial_fit on fitted arms, predictions, arm changes)
+  | copy (i : Nat)            -- `copy.deepcopy(b_i)` / `pickle.loads(pickle.dumps(b_i))`: a new bandit with a duplicate of
+                              -- everything reachable from `b_i` (the default dictionary is reachable only in the shared variant)
 deriving Repr, DecidableEq
 
 def World.step (w : World) : WOp → World
@@ -45,6 +47,10 @@ def World.step (w : World) : WOp → World
           { b with trees := b.trees ++ [if w.shared ∧ b.usesDefault then w.defaultCell else b.ownParams] }
         else b }
   | .other _ => w
+  | .copy i =>
+    match w.bandits[i]? with
+    | some b => { w with bandits := w.bandits ++ [b] }
+    | none => w
 
 def World.run (w : World) (ops : List WOp) : World := ops.foldl World.step w
 
